@@ -23,7 +23,7 @@ def nontrivial(case, impl, model, oracle):
 
 CHECK, MANIFEST = srvgen.make_check(
     "C03", "Props/C03.v", ["c03_silent_iff", "c03_header_and_question", "c03_question_is_spec",
-                         "c03_question_octets", "c03_writer_keeps_question", "c03_question_echo_octets", "c03_plain_response_decodes", "c03_plain_response_end_to_end", "c03_answered_response_header"],
+                         "c03_question_octets", "c03_writer_keeps_question", "c03_question_echo_octets", "c03_plain_response_decodes", "c03_plain_response_end_to_end", "c03_answered_response_header", "c03_answered_response_ra_z"],
     srvgen.oracle_c03, gen, nontrivial, srvgen.std_classify,
     ("Coq theorems (no axioms): the model of handle_message sends nothing exactly for requests shorter than 12 octets, with QR "
      "set, or with QDCOUNT > 1; every response carries the request's ID and opcode and RD only for opcode QUERY, and its question "
@@ -37,7 +37,7 @@ CHECK, MANIFEST = srvgen.make_check(
      "the C12 operation language, so the independent RFC 1035 decoder returns ID, QR=1, opcode, AA=TC=0, RD, RA=0, Z=0, RCODE, "
      "one question, no records and (iff EDNS) exactly one OPT with owner root, class = payload size, TTL 0 "
      "(c03_plain_response_decodes, via c12_roundtrip); every answered response starts with the ID and a third octet with QR=1, "
-     "opcode 0 and RD as copied (c03_answered_response_header). QR=1, RA=0, Z=0 and the same echo are checked on the real octets by the correspondence "
+     "opcode 0 and RD as copied (c03_answered_response_header) and has RA = Z = 0 (c03_answered_response_ra_z). QR=1, RA=0, Z=0 and the same echo are checked on the real octets by the correspondence "
      "run, which includes all 65536 flag/opcode words (thorough; every 7th quick)."),
     "machine-checked proof in Coq + correspondence check (exhaustive over the flags/opcode header word in the thorough tier)")
 CHECK["suites"][0]["finding_matches"] = srvgen.finding_c03_pointer_qname
